@@ -28,6 +28,12 @@
                 fitness vectors (protected members opened in the harness only) next to C14Loop.gen_update / ss_update with the coded
                 indicator models: surviving individuals and solution() compared.  Monitor: mu survivors, all of them parents or
                 offspring, none worse-ranked than a discarded one, solution() = (point, unpenalized value) of the survivors.
+  stream K    : checkpoint / restore of the serializable optimisers (SMSEMOA, SteadyStateMOCMA, MOCMA, RealCodedNSGAII x 3 indicators,
+                RealCodedNSGAIII through read()/write(), MOEAD through its serialize(Archive&); RVEA's serialize cannot be instantiated):
+                k steps, text archive, read into a FRESH object that only got the generator, m more steps.  Required: the restored
+                object reports the same solution set, the continued run equals the uninterrupted run of k+m steps generation by
+                generation, and all per-generation monitors (size, values, box, hypervolume monotone w.r.t. the configured reference
+                point) hold across the restore.  Keys restore:<alg>:diverges / restore:<alg>:hypervolume-decreased / restore:<alg>:...
   stream F8   : HypervolumeIndicator WITHOUT reference point (separate stream, stable key
                 contribution:no-reference-k-too-large)."""
 import os, sys, re, math, itertools
@@ -745,7 +751,7 @@ def parse_O(text):
     res = []; cur = None
     for l in text.split("\n"):
         if l.startswith("CASE "):
-            m = re.match(r"CASE (O .*?) mu=(\d+) lo=(\S+) hi=(\S+)$", l)
+            m = re.match(r"CASE ([OK] .*?) mu=(\d+) lo=(\S+) hi=(\S+)$", l)
             if m: cur = [m.group(1), {"mu": int(m.group(2)), "lo": [float(x) for x in m.group(3).split(",")], "hi": [float(x) for x in m.group(4).split(",")]}, [], "RUNNING"]
             else: cur = [l[5:], {}, [], "RUNNING"]
             res.append(cur)
@@ -758,6 +764,7 @@ def parse_O(text):
                 els.append(([float(a) for a in x.split(",")], [float(a) for a in v.split(",")], [float(a) for a in w.split(",")], fe == "1"))
             pp = [[float(a) for a in z.strip().split(",")] for z in pen.split(" ; ")] if pen else None
             cur[2].append((int(hd[1]), int(hd[2][2:]), els, pp))
+        elif l.startswith("RESTORE") and cur is not None: cur[2].append("RESTORE")
         elif l.startswith("END") and cur is not None: cur[3] = "END"
         elif (l.startswith("EXC") or l.startswith("STDEXC")) and cur is not None: cur[3] = l
     return res
@@ -827,6 +834,46 @@ def run_O(ck, cases, exe, tmpd, label="O"):
     return results
 
 # ------------------------------------------------------------------------------------------------
+# stream K: checkpoint / restore
+def gen_K(rng, big):
+    cases = []
+    algs = ["SMSEMOA", "SSMOCMA", "MOCMA", "NSGA2", "NSGA2C", "NSGA2E", "NSGA3", "MOEAD"]
+    fns2 = ["ZDT1", "ZDT2", "ZDT3", "DTLZ2"]; fns3 = ["DTLZ2", "DTLZ4", "DTLZ7"]
+    for alg in algs:
+        for rep in range(4 if big else 2):
+            nobj = 2 if rep % 2 == 0 else 3
+            fn = rng.choice(fns2 if nobj == 2 else fns3)
+            nvar = rng.randint(nobj + 1, 7)
+            mu = rng.choice([4, 5, 6, 8] if alg not in ("MOEAD", "NSGA3") else [4, 6, 10])
+            steady = alg in STEADY_HV or alg == "MOEAD"
+            k = rng.choice([20, 40, 60] if steady else [2, 4, 6]); m = rng.choice([150, 300] if steady else [5, 10])
+            if big: m *= 2
+            useref = 1 if alg in ("SSMOCMA", "SMSEMOA", "MOCMA", "NSGA2") else 0
+            cases.append("K %s %s %d %d %d %d %d %d %d %d" % (alg, fn, nobj, nvar, mu, rng.randint(1, 10 ** 6), k + m, useref, REFVAL[fn], k))
+    return cases
+
+def check_K(kcase, kres, ores):
+    """kres/ores: (case, hdr, gens, status) of the K run and of the uninterrupted O run -> list of (key suffix, message)"""
+    t = kcase.split(); alg = t[1]; k = int(t[10]); steps = int(t[7])
+    _, hdr, gens, status = kres; _, ohdr, ogens, ostatus = ores
+    if status != "END": return [("run-failed", "checkpoint/restore run of %s did not finish: %s" % (alg, status[:200]))]
+    if ostatus != "END": return []                                   # the uninterrupted run is judged by stream O
+    if "RESTORE" not in gens: return [("run-failed", "no restore stage in the output")]
+    cut = gens.index("RESTORE"); before, after = gens[:cut], gens[cut + 1:]
+    out = []
+    if before != ogens[:k + 1]:
+        out.append(("nondeterministic", "%s: the first %d generations of two runs with the same seed differ" % (alg, k)))
+    elif after != ogens[k:]:
+        g = next((i for i, (a, b) in enumerate(zip(after, ogens[k:])) if a != b), min(len(after), len(ogens[k:])))
+        what = "the restored object reports a different solution set than the object that was written" if g == 0 else \
+               "the run continued from the restored object differs from the uninterrupted run from generation %d on" % (k + g)
+        out.append(("diverges", "%s written to a text archive after %d steps and read into a fresh object: %s" % (alg, k, what)))
+    bad, notes = monitor_O("O " + " ".join(t[1:10]), hdr, before + after[1:], status)
+    for b in bad[:1]:
+        out.append(("hypervolume-decreased" if "hypervolume" in b else re.sub(r"[\d.eE+-]+", "N", b)[:50], "%s, restored after %d steps: %s" % (alg, k, b)))
+    return out
+
+# ------------------------------------------------------------------------------------------------
 def main():
     ck = Check(PID)
     big = ck.tier == "thorough"
@@ -876,6 +923,7 @@ def main():
     i_lines = [l for l in corpus if l.startswith("I ")]
     v_lines = [l for l in corpus if l[:2] in ("X ", "M ", "T ", "L ")]
     u_lines = [l for l in corpus if l.startswith("U ")]
+    k_lines = [l for l in corpus if l.startswith("K ")]
     if not ck.replay:
         s_lines += gen_S(ck.rng, big, 6000 if big else 900)
         p_lines += gen_P(ck.rng, 2000 if big else 300)
@@ -1008,6 +1056,25 @@ def main():
                                  "optimizer %s: an object that completed an earlier run and was initialised again does not repeat the run of a fresh object with the same seed (`%s`: first difference at generation %d, status %s vs %s)" % (c.split()[1], c, k, s0[:40], status[:40]))
         ck.oblige("re-initialised optimizer objects repeat the run of fresh objects on %d runs" % len(re_cases), rbad == 0)
         gens_total += sum(len(g) for (_, _, g, _) in [(0, 0, base[c][1], 0) for c in sel])
+
+    # ---- stream K: checkpoint / restore
+    if not ck.replay: k_lines += gen_K(ck.rng, big)
+    if k_lines:
+        ref_lines = ["O " + " ".join(l.split()[1:10]) for l in k_lines]
+        kres = run_O(ck, k_lines, moo, tmpd, label="K"); ores = run_O(ck, ref_lines, moo, tmpd, label="KO")
+        kbad = 0; kseen = set()
+        for l, kr, orr in zip(k_lines, kres, ores):
+            for suffix, msg in check_K(l, kr, orr):
+                kbad += 1
+                key = "restore:%s:%s" % (l.split()[1], suffix)
+                if key in kseen: continue
+                kseen.add(key)
+                cf = ck.write_replay("K_case_%d.txt" % kbad, l + "\n")
+                ck.violation(key, {"case_file": cf, "case": l, "uninterrupted_case": "O " + " ".join(l.split()[1:10]), "monitor": [msg],
+                                   "replay_cmd": "python3 tools/c14.py --replay " + cf}, "spec monitor fails on the implementation: `%s`: %s" % (l, msg))
+            gens_total += sum(1 for g in kr[2] if g != "RESTORE")
+        ck.oblige("checkpoint/restore: %d optimizer runs written to a text archive, read into a fresh object and continued equal the uninterrupted runs and keep the per-generation invariants" % len(k_lines), kbad == 0)
+        ck.notes["restore_runs"] = len(k_lines); ck.notes["restore_not_serializable"] = ["RVEA (serialize(Archive&) cannot be instantiated; read()/write() are the empty defaults)"]
 
     ck.cov["evaluations"] = len(s_lines) + len(f8_lines) + len(p_lines) + len(i_lines) + len(v_lines) + len(u_lines) + gens_total
     ck.cov["distinct_nontrivial"] = len(set(l for l, o in zip(s_lines, outs) if "K=" in o and int(kv(o)["K"]) > 0)) + len(set(o_lines))
